@@ -294,7 +294,7 @@ fn gen_wtrace(rng: &mut Rng, faults: bool) -> WTrace {
             _ => WEv::Accept(usize::MAX),
         });
     }
-    WTrace { events, rest_max: *rng.pick(&[0, 0, 0, 1, 7, 4096, 60000]) }
+    WTrace { events, rest_max: [0, 60000, 4096, 7, 1][rng.weighted(&[54, 12, 22, 8, 4])] }
 }
 
 fn build_run(master: u64, idx: u64, buf: usize) -> WRecord {
